@@ -562,6 +562,9 @@ func c08check(r *verifkit.Result, c *c08call, res *c08res, orc *c08oracle, u str
 			}
 			if demand {
 				r.Count("reassembly_demanded_"+mode, 1)
+				if len(u) > 24 {
+					r.Count("reassembly_demanded_fragment_over_24_"+mode, 1)
+				}
 			}
 			if demand && res.ConsSeq != u {
 				g := ":A-starts-first"
@@ -1489,6 +1492,8 @@ func TestVerifC08(t *testing.T) {
 	r.RequireNonVacuous("long_geometries_with_a_read_over_24")
 	r.RequireNonVacuous("single_scheme_optimal")
 	r.RequireNonVacuous("paths_with_inner_indel_fast")
+	r.RequireNonVacuous("reassembly_demanded_fragment_over_24_exact")
+	r.RequireNonVacuous("reassembly_demanded_fragment_over_24_fast")
 	r.RequireNonVacuous("valid_paths")
 	r.RequireNonVacuous("fast_dp_branch")
 	r.RequireNonVacuous("fast_identical_branch")
